@@ -29,6 +29,11 @@ CHECKS = {
     text="Exploration: every CNF with <= 2 variables (+ unused third) and <= 2 clauses of width <= 2 and seeded CNFs up to 4 variables x every transformation (xor, or, maj, eq, neq, one, exact/atleast/atmost/anybut with every K in -1..N+1, ite, lift, flip) under 16/20 new variables; xor/maj compression with every graph up to 8 possible edges and seeded larger; library calls and the '-T' command-line spelling; variable counts against the documented k*n, 3n, 2k*n, |R|, n.",
     note="Trusts vmon/tt.py and the gadget definitions in C05.py (majority = at least half, lifting = exactly one selector and the selected copy).",
     design="5/C05"),
+ "C06": dict(
+    technique="runtime monitoring: strict line-classifying reference DIMACS reader; every writer route read back through every reader route; mutated / grammar-generated / junk texts classed MUST-REJECT / determined / unknown",
+    text="Exploration: hand-built formulas (0..40 variables, empty formula, empty clauses, unused variables, hostile header values and names incl. LF/CR/CRLF), 61 family command lines and transformation chains, header x varnames combinations, all write routes (to_dimacs, to_file to StringIO/path/handle/stdout, cnfgen -q/-v/--varnames/-o, kthlist2pebbling) and read routes (from_file on StringIO/path/handle/stdin, cnfgen dimacs, cnfshuffle).  Output lines must be comment / the problem line with true counts / the next clause; ~20k (quick) texts from 45 mutation kinds: only ValueError may be raised, a must-reject text is never accepted, an accepted text equals its reference reading.",
+    note="Trusts vmon/refmodels/c06_dimacs.py (self-checked on 30 fixed texts incl. the doctest examples).  Texts the writer would not produce may be refused; only their reading, if accepted, is judged.",
+    design="5/C06"),
  "C08": dict(
     technique="runtime monitoring: the same argv through cnfgen and pbgen in-process with equalised RNG state; names, counts and exact model sets (clause evaluator vs bit-sliced adder) compared; sampled assignments beyond the cap",
     text="Exploration: every formula sub-command of the shared corpus (all option combinations, deterministic and random graph constructions, several RNG seeds for random ones) built by both tools; number of variables, name lists and model sets must coincide; 46 realistic-size command lines compared on sampled assignments and one-flip neighbours of found models.",
@@ -44,6 +49,11 @@ CHECKS = {
     text="Exploration: 47 library entries at realistic sizes under CNF and OPB classes, transformation chains of length 0-3 (sized so that substitution blow-up stays bounded), ~600 command lines (realistic and small corpora, cnfgen with -T chains and pbgen), 3200 random interleavings of group creation / checked clause insertion / variable-count raises per run.  Observed: every inserted clause's variables, every identifier a new group receives (must not be among those already mentioned), monotonic declared count; returned formulas scanned literal by literal; declared count compared with the documented closed form.  Thorough also runs the repository's own tests with the hooks armed.",
     note="Hooks are installed from outside by rebinding class attributes (no repository edit).  Clauses inserted by *user* code with check=False are outside the statement.",
     design="5/C10"),
+ "C11": dict(
+    technique="runtime monitoring: histories of group creation / anonymous variables against a shadow allocation model; closed-form counts, index<->identifier inversion, wildcard patterns, out-of-domain probes, name alignment incl. 'c varname' lines",
+    text="Exploration: all histories of length <= 2 over a 56-operation alphabet per class (CNF, OPB, bare VariablesManager), 15k (quick) / 225k (thorough) sampled longer histories with random shapes (zero ranges, empty graphs, k>n, loops, isolated vertices), large shapes after 50-400 anonymous variables, 22 cnfgen --varnames command lines.  Per group: contiguous fresh range, indices in identifier order, to_index(+-id) inverts, every wildcard subset equals the filter of the enumeration, out-of-domain indices/literals rejected; names judged after every operation.",
+    note="Trusts vmon/refmodels/c11_shapes.py (legal index sets and closed forms, cross-checked at start-up).  The label syntax is whatever the group reports.",
+    design="5/C11"),
  "C12": dict(
     technique="runtime monitoring: independent OPB reader and LaTeX row parser applied to every rendering path; row-by-row comparison with the in-memory formula",
     text="Exploration: random CNF/OPB formulas (0..106 rows crossing the 35-row page split up to three pages, coefficients up to 10^30, every operator through normalisation, empty rows, hostile but brace-balanced names), enumerated tiny formulas (empty formula vs empty clause), 72 family command lines with their real names, every rendering path (to_opb, to_latex, to_file by format / extension / file object, cnfgen -of, pbgen, real processes), header and varnames on/off; comment shield with multi-line header values and names.",
@@ -54,6 +64,11 @@ CHECKS = {
     text="Exploration: RandomKCNF/RandomKXOR for k in 0..4, n in 0..6, m from 0 to max+2 (every m in thorough), 0..3 planted total assignments, seeded and adversarial randomness (sparse sampler driven to exhaustion so the dense path is observed), plus the randkcnf/randkxor command lines.  Each call is judged for counts, distinctness, width, planted assignments, model set = solutions of the decoded system and 'ValueError exactly when infeasible'.",
     note="Trusts the reference enumeration of compatible clauses (itertools) and vmon/tt.py.  Parities with k=0 are judged by clause count only.  Adversarial RNG answers are legal values, i.e. positive-probability outcomes.",
     design="5/C13"),
+ "C14": dict(
+    technique="runtime monitoring: round trips of enumerated and seeded graphs through every format and channel; reference readers for kthlist/DIMACS/matrix judge mutated and hostile texts; dag gate",
+    text="Exploration: every simple graph and dag with <= 4 vertices, every digraph <= 3 vertices incl. loops, every bipartite graph with L+R <= 4, fixed 10-12 vertex graphs, seeded graphs with 0..15 vertices (half >= 10, isolated vertices, empty sides), in every supported format through StringIO / path / handle / from_file / command-line graph arguments / save; digraphs with back edges read as 'dag' must be refused; ~85 fixed hostile texts plus 1-3 stacked mutations of written files: only ValueError may escape, an accepted result must be the graph the reference derives.",
+    note="gml and dot parsing is networkx/pydot code: judged by round trip and exception discipline only.  Trusts vmon/refmodels/c14_readers.py.",
+    design="5/C14"),
  "C15": dict(
     technique="runtime monitoring: every construction through make_graph_from_spec with arguments inside/at/outside the range, structural oracles and independent references, stage-by-stage option replay under equal RNG/adversary state, taps that observe rare sampler branches",
     text="Exploration: all simple/bipartite/dag constructions with enumerated arguments (gnm every m, glrm every m up to L*R+1, gnd/regular/glrd every degree incl. non-divisible, grid/torus 1-3 dimensions, ...), options plantclique/plantbiclique/addedges/splitedges from -1 to one past the maximum alone and combined, save in every format read back by independent strict readers, ~340 in-process and some real-process command lines with the graph decoded from the formula; random constructions under fair seeds and the bounded RNG adversary (retry exhaustion, sparse->dense switches observed by counters).  Verdict per request: promised structure or ValueError.",
@@ -64,6 +79,21 @@ CHECKS = {
     text="Exploration: all operation histories of length <= 2 (quick) / <= 3 (thorough) over small alphabets with out-of-range arguments, plus seeded random histories of up to 60 operations from sizes 0..6, on the four graph classes and named constructions.  After every operation every public view (counts, edge listing, membership, neighbour lists, degrees, is_dag) is compared with a set model; refusals must leave no trace; networkx round trip at the end of every history.",
     note="Trusts networkx for the conversion comparison.  A refused insertion is expected to raise (any exception type).  The icontract invariant records and never raises through the code under test.",
     design="5/C16"),
+ "C17": dict(
+    technique="runtime monitoring: reference dispatcher (help text -> library call) vs the tools in-process under equal RNG state; graphs taken from 'save'd files through independent readers; random options judged by their promise",
+    text="Exploration: ~900 structured commands covering all 33 formula sub-commands with their option subsets, numeric grids, deterministic and random graph constructions, through cnfgen (formula_class=CNF) and pbgen (formula_class=OPB); -T chains of length 1-3 on deterministic bases (exact under RNG replay); graph files of every type/format given by extension and explicitly; dimacs sub-command; kthlist2pebbling vs 'peb'; -q/-v/--varnames/-o/-of on three tools.  Names equal as lists, clauses/constraints as multisets, formula class as documented.",
+    note="Saved files are read with vmon/refmodels/c15_ref.py.  Random ingredients (php M N D, subsetcard N d, op N d, tseitin N d / random charges, --sparse, --plant) are reconstructed from the formula and judged by what the option promises.",
+    design="5/C17"),
+ "C19": dict(
+    technique="runtime monitoring: icontract snapshot/ensure contracts on every monitored call (arguments deep-compared before/after), aliasing probes on results, header provenance checks",
+    text="Exploration: 17 transformations (incl. Shuffle with explicit lists, compression with a graph) on 7 base formulas, all single steps and sampled chains up to length 4; every graph-taking family with cnfgen and networkx graphs under both classes; list-taking APIs (charges, shift patterns, planted assignments, builders incl. '!=', Shuffle arguments) and refused calls (arguments must be intact after the exception too).  Result != input object, input state unchanged, mutation of the result does not show in the input, header keeps description and entries and gains 'transformation 1..t' in order.",
+    note="'Keeps the original description' is read as contains.  Graph modifiers documented to work in place are not judged.  icontract does not evaluate postconditions after a raise: those calls are compared by the harness.",
+    design="5/C19"),
+ "C20": dict(
+    technique="runtime monitoring with a scripted stand-in solver: fakesolver.py installed under all supported names in a scratch PATH speaks each I/O convention and output shape, logs what it answered; bridge verdicts compared with the log and with the truth table; temp-file ledger",
+    text="Exploration: curated corner formulas, families and seeded CNFs (0..8 / 0..10 variables, 300 kB inputs) x solve()/is_satisfiable() x 11 names x invocation forms (name, flags, sameas, absolute path, default search over installed subsets) x ~60 output shapes (split v lines, comments, answer order, missing 0, minisat result files, UNKNOWN, no answer, garbage, non-zero exits, early exit).  Verdict and assignment must equal what the solver logged and satisfy the formula; failures must raise the documented error; created temp files == removed.",
+    note="The fake solver decides by brute force and is cross-checked by vmon/tt.py (a disagreement is a harness error).  Garbage shapes are judged leniently: documented error or the conforming answer contained in the output.",
+    design="5/C20"),
 }
 
 NOT_APPLICABLE = []
